@@ -288,6 +288,12 @@ def local_pair(rng, kind):
     return np.kron(one(), one())
 
 
+def name_rng(name):
+    """The special-case corpus is frozen: its random dressings and option picks depend on the name only, not on VERIF_SEED."""
+    import random, zlib
+    return random.Random(zlib.crc32(name.encode()))
+
+
 def two_qubit_inputs(ctx, cirq, n_random, full=True):
     """[(class name, 4x4 unitary, kak hint or None)]"""
     rng = ctx.rng
@@ -307,8 +313,8 @@ def two_qubit_inputs(ctx, cirq, n_random, full=True):
     for name, u in named:
         out.append((name, np.asarray(u, dtype=complex), None))
     for kind in ('clifford', 'haar'):
-        for _ in range(3 if full else 1):
-            out.append((f'local:{kind}', local_pair(rng, kind), None))
+        for i in range(3):
+            out.append((f'local:{kind}#{i}', local_pair(name_rng(f'local:{kind}#{i}'), kind), None))
     out.append(('local:XZ', np.kron(np.array([[0, 1], [1, 0]]), np.diag([1, -1])).astype(complex), None))
     out.append(('local:I(x)H', np.kron(np.eye(2), np.array([[1, 1], [1, -1]]) / math.sqrt(2)).astype(complex), None))
     pts = weyl_points()
@@ -318,9 +324,10 @@ def two_qubit_inputs(ctx, cirq, n_random, full=True):
     for name, xyz in allpts:
         core = interaction_matrix(*xyz)
         out.append(('weyl:' + name, core, xyz))
-        if full or ':' not in name.split(':', 2)[-1] or rng.random() < 0.3:
-            g = cmath.exp(1j * rng.uniform(0, 2 * math.pi))
-            out.append(('weyl+locals:' + name, g * local_pair(rng, 'haar') @ core @ local_pair(rng, 'haar'), xyz))
+        if full or not any(name.endswith(d) for d in ('1e-10', '2e-09')):
+            r = name_rng('weyl+locals:' + name)
+            g = cmath.exp(1j * r.uniform(0, 2 * math.pi))
+            out.append(('weyl+locals:' + name, g * local_pair(r, 'haar') @ core @ local_pair(r, 'haar'), xyz))
     for i in range(n_random):
         r = rng.random()
         if r < 0.5:
@@ -375,8 +382,9 @@ def kak_stream(ctx, cirq, inputs, checks):
 
 
 def cls(name):
-    """Input class used in signatures: the corpus name without the random local dressing marker."""
-    return name
+    """Input class used in signatures: the corpus name without the local dressing marker (bare and dressed versions of one
+    Weyl-chamber point belong to the same class)."""
+    return name.replace('weyl+locals:', 'weyl:')
 
 
 def cmat(u):
@@ -480,7 +488,7 @@ def add_ops_checks(ctx, conv, checks, routine, opts, name, u, ops, qubits, tol, 
     try:
         term = conv.ops(ops, qubits)
     except Exception as e:
-        ctx.violation(f'{routine}:form:{name}', f'{stream} on {name}: {e}', rep)
+        ctx.violation(f'{routine}:form:{cls(name)}', f'{stream} on {name}: {e}', rep)
         return
     n = len(qubits)
     ctx.count(stream, [name, rep['matrix']], nontrivial, sample=dict(input_class=name, operations=[str(o) for o in ops][:12], n_ops=len(ops)))
@@ -492,14 +500,15 @@ def add_ops_checks(ctx, conv, checks, routine, opts, name, u, ops, qubits, tol, 
     what = (f'{stream} on {name}: the product of the returned operations differs from the input'
             f'{" (up to global phase)" if phase else ""} by more than the documented tolerance {tol:g} (numpy estimate of the residual: {res})')
     checks.append((stream, f'{cmpf} {fl(tol)} {gates.nlist([2] * n)} {term} {gates.fmat(u)}', what,
-                   dict(rep, signature=f'{routine}:reconstruct:{name}', loose=f'{cmpf} {fl(10 * tol)} {gates.nlist([2] * n)} {term} {gates.fmat(u)}',
+                   dict(rep, signature=f'{routine}:reconstruct:' + (extra or {}).get('sig_prefix', '') + cls(name), loose=f'{cmpf} {fl(10 * tol)} {gates.nlist([2] * n)} {term} {gates.fmat(u)}',
+                        loose2=f'{cmpf} {fl(1e-6)} {gates.nlist([2] * n)} {term} {gates.fmat(u)}' if 10 * tol < 1e-6 else 'false',
                         loose_signature=f'{routine}:reconstruct:within-10x-tolerance')))
     if count is not None:
         bound, exact, native, text = count
         n2 = sum(1 for o in ops if len(o.qubits) >= 2)
         checks.append((stream + ':count', f'{"exact_count" if exact else "within_count"} {opdescs(ops, native)} {bound}',
                        f'{stream} on {name}: {text}; got {n2} operations on >= 2 qubits: {[str(o) for o in ops if len(o.qubits) >= 2]}',
-                       dict(rep, signature=f'{routine}:count:{name}')))
+                       dict(rep, signature=f'{routine}:count:' + (extra or {}).get('sig_prefix', '') + cls(name))))
         ctx.count(stream + ':count', [name, rep['matrix']], nontrivial)
 
 
@@ -563,7 +572,7 @@ def run_2q(ctx, cirq, mods, conv, checks, routine, opts, name, u, hint):
     rep = dict(kind='synth', routine=routine, opts=opts, input_class=name, matrix=cmat(u), hint=list(hint) if hint is not None else None)
 
     def raised(e, extra=''):
-        ctx.violation(f'{routine}:raises:{name}', f'{routine}({opts}) raised {type(e).__name__}: {e} on {name}{extra}', rep)
+        ctx.violation(f'{routine}:raises:{cls(name)}', f'{routine}({opts}) raised {type(e).__name__}: {e} on {name}{extra}', rep)
 
     if routine == 'two_qubit_matrix_to_cz_operations':
         try:
@@ -584,7 +593,7 @@ def run_2q(ctx, cirq, mods, conv, checks, routine, opts, name, u, hint):
         add_ops_checks(ctx, conv, checks, routine, opts, name, u, [cirq.MatrixGate(d).on(*q)] + ops, q, 1e-8, True, None, nt)
         checks.append((routine + ':form', f'is_diagonal_f {fl(1e-8)} {gates.fmat(d)} && is_unitary_f {fl(1e-7)} 4 {gates.fmat(d)} && '
                        f'within_count {opdescs(ops, is_cz(opts["allow_partial_czs"]))} 3',
-                       f'{routine} on {name}: D is not a diagonal unitary or more than 3 CZ are used', dict(rep, signature=f'{routine}:form:{name}')))
+                       f'{routine} on {name}: D is not a diagonal unitary or more than 3 CZ are used', dict(rep, signature=f'{routine}:form:{cls(name)}')))
     elif routine == 'two_qubit_matrix_to_sqrt_iswap_operations':
         req, inv = opts['required_sqrt_iswap_count'], opts['use_sqrt_iswap_inv']
         expected = region_count(hint)
@@ -614,7 +623,7 @@ def run_2q(ctx, cirq, mods, conv, checks, routine, opts, name, u, hint):
         except Exception as e:
             return raised(e)
         add_ops_checks(ctx, conv, checks, routine, opts, name, u, circ.all_operations(), q, 1e-7, False,
-                       (4, True, lambda op: op.gate == fg, f'exactly four {fname} gates'), nt, extra=dict(sig_extra=fsim_signature(cirq, fname, u)))
+                       (4, True, lambda op: op.gate == fg, f'exactly four {fname} gates'), nt, extra=dict(sig_prefix=fname + ':'))
     elif routine == 'two_qubit_matrix_to_ion_operations':
         try:
             ops = cirq.two_qubit_matrix_to_ion_operations(q[0], q[1], u, **opts)
@@ -634,47 +643,34 @@ def run_2q(ctx, cirq, mods, conv, checks, routine, opts, name, u, hint):
 
 
 def synth2q_stream(ctx, cirq, mods, conv, inputs, checks, sub):
-    rng = ctx.rng
     fn = list(FSIMS)
+    CZ, SQ, F4 = 'two_qubit_matrix_to_cz_operations', 'two_qubit_matrix_to_sqrt_iswap_operations', 'decompose_two_qubit_interaction_into_four_fsim_gates'
     for k, (name, u, hint) in enumerate(inputs):
         special = not name.startswith('random')
-        todo = [('two_qubit_matrix_to_cz_operations', dict(allow_partial_czs=False, clean_operations=True, atol=1e-8)),
-                ('two_qubit_matrix_to_cz_operations', dict(allow_partial_czs=True, clean_operations=True, atol=1e-8)),
-                ('two_qubit_matrix_to_sqrt_iswap_operations', dict(required_sqrt_iswap_count=None, use_sqrt_iswap_inv=False, clean_operations=False, atol=1e-8)),
-                ('decompose_two_qubit_interaction_into_four_fsim_gates', dict(fsim_gate=fn[0]))]
+        rng = name_rng(name) if special else ctx.rng
+        sq = lambda **kw: (SQ, dict(dict(required_sqrt_iswap_count=None, use_sqrt_iswap_inv=False, clean_operations=False, atol=1e-8), **kw))
+        todo = [(CZ, dict(allow_partial_czs=False, clean_operations=True, atol=1e-8)), (CZ, dict(allow_partial_czs=True, clean_operations=True, atol=1e-8)),
+                sq(), (F4, dict(fsim_gate=fn[0]))]
         if k % sub == 0:
-            todo += [('two_qubit_matrix_to_cz_operations', dict(allow_partial_czs=False, clean_operations=False, atol=1e-8)),
-                     ('two_qubit_matrix_to_cz_operations', dict(allow_partial_czs=True, clean_operations=False, atol=1e-8)),
-                     ('two_qubit_matrix_to_cz_operations', dict(allow_partial_czs=rng.random() < 0.5, clean_operations=rng.random() < 0.5, atol=rng.choice([1e-6, 1e-10, 1e-5]))),
-                     ('two_qubit_matrix_to_sqrt_iswap_operations', dict(required_sqrt_iswap_count=rng.choice([0, 1]), use_sqrt_iswap_inv=False, clean_operations=False, atol=1e-8)),
-                     ('two_qubit_matrix_to_sqrt_iswap_operations', dict(required_sqrt_iswap_count=None, use_sqrt_iswap_inv=True, clean_operations=True, atol=rng.choice([1e-8, 1e-6])))]
+            todo += [(CZ, dict(allow_partial_czs=False, clean_operations=False, atol=1e-8)), (CZ, dict(allow_partial_czs=True, clean_operations=False, atol=1e-8)),
+                     (CZ, dict(allow_partial_czs=rng.random() < 0.5, clean_operations=rng.random() < 0.5, atol=rng.choice([1e-6, 1e-10, 1e-5]))),
+                     sq(required_sqrt_iswap_count=rng.choice([0, 1])), sq(use_sqrt_iswap_inv=True, clean_operations=True, atol=rng.choice([1e-8, 1e-6])),
+                     (F4, dict(fsim_gate=rng.choice(fn[1:])))]
         if special or k % sub == 0:
-            todo += [('two_qubit_matrix_to_sqrt_iswap_operations', dict(required_sqrt_iswap_count=3, use_sqrt_iswap_inv=False, clean_operations=False, atol=1e-8)),
-                     ('two_qubit_matrix_to_sqrt_iswap_operations', dict(required_sqrt_iswap_count=2, use_sqrt_iswap_inv=rng.random() < 0.5, clean_operations=rng.random() < 0.5, atol=1e-8)),
-                     ('two_qubit_matrix_to_ion_operations', dict(clean_operations=k % 3 != 0))]
+            todo += [sq(required_sqrt_iswap_count=3) if k % 2 else sq(required_sqrt_iswap_count=2, use_sqrt_iswap_inv=rng.random() < 0.5, clean_operations=rng.random() < 0.5)]
         if (special and k % 2 == 0) or k % sub == 0:
-            todo += [('two_qubit_matrix_to_diagonal_and_cz_operations', dict(allow_partial_czs=rng.random() < 0.5)),
-                     ('decompose_two_qubit_interaction_into_four_fsim_gates', dict(fsim_gate=rng.choice(fn[1:])))]
-        if (special and k % 2 == 1) or k % sub == 0:
-            todo += [('two_qubit_matrix_to_sycamore_operations', dict(clean_operations=k % 4 != 1))]
+            todo += [('two_qubit_matrix_to_ion_operations', dict(clean_operations=k % 3 != 0))]
+        if (special and k % 4 == 1) or k % sub == 0:
+            todo += [('two_qubit_matrix_to_diagonal_and_cz_operations', dict(allow_partial_czs=rng.random() < 0.5))]
+        if (special and k % 4 == 3) or k % sub == 0:
+            todo += [('two_qubit_matrix_to_sycamore_operations', dict(clean_operations=k % 8 != 3))]
         for routine, opts in todo:
             run_2q(ctx, cirq, mods, conv, checks, routine, opts, name, u, hint)
 
 
-def fsim_signature(cirq, fname, u):
-    """Input class of a four-FSim failure: which raw KAK coordinates of the input sit within 2e-9 of +-pi/4 (the
-    canonicaliser's atol is 1e-9), as computed by cirq.kak_decomposition of the input itself."""
-    try:
-        k = cirq.kak_decomposition(u)
-        near = [f'{"xyz"[i]}@pi/4{(c - PI4):+.0e}' for i, c in enumerate(k.interaction_coefficients) if abs(abs(c) - PI4) <= 2.5e-9 and abs(abs(c) - PI4) > 1e-12]
-        return fname + ':kak-near-pi/4[' + ','.join(near) + ']' if near else None
-    except Exception:
-        return None
-
-
 # =====================================================================================================
 def evaluate(ctx, checks):
-    SH = 60
+    SH = 150
 
     def run_shards(exprs, tag):
         shards = []
@@ -688,19 +684,22 @@ def evaluate(ctx, checks):
     # classify reconstruction failures: beyond the documented tolerance but within 10x of it, or worse
     second = [c for c in failing if 'loose' in c[3]]
     still = set(run_shards([c[3]['loose'] for c in second], 'b')) if second else set()
-    minor = {id(c) for k, c in enumerate(second) if k not in still}
+    minor = {id(c): '10x' for k, c in enumerate(second) if k not in still}
+    third = [c for k, c in enumerate(second) if k in still and 'loose2' in c[3]]
+    still3 = set(run_shards([c[3]['loose2'] for c in third], 'c')) if third else set()
+    minor.update({id(c): '1e-6' for k, c in enumerate(third) if k not in still3})
     for c in failing:
         stream, _, desc, rep = c
         rep = dict(rep)
         sig = rep.pop('signature')
-        rep.pop('loose', None)
+        rep.pop('loose', None), rep.pop('loose2', None), rep.pop('sig_prefix', None)
         loose_sig = rep.pop('loose_signature', None)
-        extra = rep.pop('sig_extra', None)
-        if id(c) in minor:
+        if minor.get(id(c)) == '10x':
             sig = loose_sig
             desc += ' [residual within 10x the documented tolerance]'
-        elif extra and ':reconstruct:' in sig:
-            sig = sig.split(':reconstruct:')[0] + ':reconstruct:' + extra
+        elif minor.get(id(c)) == '1e-6':
+            sig = loose_sig.replace('within-10x-tolerance', 'beyond-10x-tolerance-below-1e-6')
+            desc += ' [residual beyond 10x the documented tolerance but below 1e-6]'
         ctx.disagree(f'validation:{stream}', desc, sig, desc, rep)
 
 
@@ -719,7 +718,7 @@ def run(ctx):
     canon_stream(ctx, cirq, 400 * n)
     checks = []
     conv = Conv(cirq, mods)
-    inputs = two_qubit_inputs(ctx, cirq, 40 * n)
+    inputs = two_qubit_inputs(ctx, cirq, 40 * n, full=ctx.tier != 'quick')
     kak_stream(ctx, cirq, inputs, checks)
     synth2q_stream(ctx, cirq, mods, conv, inputs, checks, 8 if ctx.tier == 'quick' else 2)
     ctx.cov['operations_entering_through_cirq_unitary'] = dict(conv.via_unitary)
